@@ -334,6 +334,12 @@ class VLoop(asyncio.BaseEventLoop):
     def _collect_exc(loop, context):
         loop.exc_contexts.append(context)
 
+    def call_soon_threadsafe(self, callback, *args, context=None):
+        hook = getattr(self.ctl, "pre_threadsafe", None)
+        if hook is not None and threading.get_ident() != self._thread_id:
+            hook(self)  # engine B: a scheduling point before a foreign thread enqueues
+        return super().call_soon_threadsafe(callback, *args, context=context)
+
     # fake file descriptors (engine E): the environment model fires these callbacks
     def add_reader(self, fd, callback, *args):
         self._readers[fd] = (callback, args)
